@@ -214,9 +214,13 @@ pub fn admit_bid(w: &World, cfg: &Cfg, book: &Book, sender: &str, funds: &[(Stri
             }
         },
     };
+    let fee_judged = match &cfg.bid_fee {
+        None => true,
+        Some(f) => parse_dec(&f.rate).map_or(false, |r| r.form == Form::Plain && below_limit(r.mant_times(total))),
+    };
     match &fee {
         Some((d, a)) => {
-            if *a != due {
+            if *a != due && fee_judged {
                 return Verdict::refuse("fee amount != rate*total rounded half up");
             }
             if d != quote {
@@ -224,7 +228,7 @@ pub fn admit_bid(w: &World, cfg: &Cfg, book: &Book, sender: &str, funds: &[(Stri
             }
         }
         None => {
-            if due != 0 {
+            if due != 0 && fee_judged {
                 return Verdict::refuse("fee missing");
             }
         }
@@ -300,6 +304,8 @@ pub struct MatchCtx {
     pub gross: u128,
     pub orig_gross: u128,
     pub improved: bool,
+    /// price and rate products are inside the exact-decimal domain (amounts can be judged exactly)
+    pub amounts_exact: bool,
 }
 
 pub fn match_verdict(cfg: &Cfg, book: &Book, sender: &str, funds: &[(String, u128)], m: &Value) -> (Verdict, Option<MatchCtx>) {
@@ -419,7 +425,12 @@ pub fn match_verdict(cfg: &Cfg, book: &Book, sender: &str, funds: &[(String, u12
             }
         }
     }
-    (Verdict::accept(dom, why), Some(MatchCtx { ep, bp, ap, gross, orig_gross, improved }))
+    let amounts_exact = ep.form == Form::Plain
+        && bp.form == Form::Plain
+        && below_limit(ep.mant_times(size))
+        && below_limit(bp.mant_times(size))
+        && cfg.ask_fee.as_ref().map_or(true, |f| parse_dec(&f.rate).map_or(false, |r| r.form == Form::Plain && below_limit(r.mant_times(gross))));
+    (Verdict::accept(dom, why), Some(MatchCtx { ep, bp, ap, gross, orig_gross, improved, amounts_exact }))
 }
 
 // ------------------------------------------------------------------------------------------------
